@@ -292,6 +292,13 @@ def apply_rules(text, features=(), keep_unsafe=False):
             close = match_close(m, mm.end() - 1, '(', ')')
             out.append(t[i:mm.start()]); out.append(repl); i = close + 1
         out.append(t[i:]); t = ''.join(out)
+    # R3b: console output macros -> external no-op (what reaches stdout is decided by the C18 scan)
+    m = mask_noncode(t)
+    out = []; i = 0
+    for mm in re.finditer(r'\b(println|print|eprintln|eprint)!\s*\(', m):
+        close = match_close(m, mm.end() - 1, '(', ')')
+        out.append(t[i:mm.start()]); out.append('verif_print()'); i = close + 1
+    out.append(t[i:]); t = ''.join(out)
     m = mask_noncode(t)
     out = []; i = 0
     for mm in re.finditer(r'\.\s*expect\s*\(', m):
@@ -474,15 +481,19 @@ def splice_fn(fn_text, spec, notes):
             if inv.get('invariant'):
                 ins += '\n        invariant\n' + inv['invariant'].rstrip().rstrip(',') + ','
             if inv.get('decreases'):
-                ins += '\n        decreases ' + inv['decreases'].strip()
+                ins += '\n        decreases ' + inv['decreases'].strip().rstrip(',') + ','
             bodyins = ''
             if inv.get('body'):
                 bodyins = '\n' + inv['body'].rstrip() + '\n'
             if inv.get('body_end'):
                 close = match_close(mb, k)
                 body = body[:close] + inv['body_end'].rstrip() + '\n' + body[close:]
+            close = match_close(mb, k)
+            nxt = mb[close + 1:].lstrip()
+            if nxt.startswith('{') and not inv.get('after'):
+                # Verus' clause parser: a loop body directly followed by another block is ambiguous; an empty statement separates them
+                body = body[:close + 1] + ';' + body[close + 1:]
             if inv.get('after'):
-                close = match_close(mb, k)
                 body = body[:close + 1] + '\n' + inv['after'].rstrip() + '\n' + body[close + 1:]
             body = body[:k] + ins + '\n      {' + bodyins + body[k + 1:]
     if spec.get('exit'):
@@ -649,7 +660,7 @@ def process_template(path, name=None):
                         rm = re.match(r'rewrite\s+"(.*)"\s*=>\s*"(.*)"\s*$', d2)
                         if not rm:
                             raise ExtractError("bad rewrite directive: %s" % d2)
-                        spec.setdefault('rewrites', []).append((rm.group(1), rm.group(2)))
+                        spec.setdefault('rewrites', []).append((rm.group(1).replace('\\"', '"'), rm.group(2).replace('\\"', '"')))
                         cur = None
                     elif d2.startswith('closure '):
                         k = int(d2.split()[1])
